@@ -156,18 +156,29 @@ def classify(text, res):
             "; ".join(e["msg"] for e in errs[:5])
         r["diagnostics"] = [e["text"] for e in errs[:10]]
         return r
-    # any non-semantic error (rustc type error etc.) => undecided
-    for e in errs:
-        if "rlimit" in e["msg"] or "Resource limit" in e["msg"] or "timed out" in e["msg"]:
-            r["reason"] = "solver resource limit: " + e["msg"]
-            r["diagnostics"] = [e["text"]]
-            return r
+    # a solver resource limit decides nothing about the function it hit; it makes the unit undecided unless some
+    # OTHER function has a definite semantic verdict (which is reported)
+    rl_errs = [e for e in errs if "rlimit" in e["msg"] or "Resource limit" in e["msg"] or "timed out" in e["msg"]]
     failed = []
     for e in errs:
-        fn = innermost_fn(spans, e["line"]) if e["line"] else None
+        if e in rl_errs:
+            continue
+        # the primary span of a failed postcondition may lie in a trait declaration (no body): fall back to the other
+        # source lines quoted in the diagnostic (the gutter numbers), e.g. "at the end of the function body"
+        cands = ([e["line"]] if e["line"] else []) + [int(x) for x in re.findall(r"^\s*(\d+) \|", e["text"], re.M)]
+        fn = None
+        for ln_ in cands:
+            fn = innermost_fn(spans, ln_)
+            if fn:
+                break
         if fn and fn.startswith("vacuity__"):
             continue
         failed.append({"function": fn, "kind": e["msg"], "line": e["line"], "col": e["col"], "text": e["text"]})
+    if rl_errs and not [f for f in failed if any(s_ in f["kind"] for s_ in SEMANTIC)
+                        and not str(f.get("function") or "").startswith("finding__")]:
+        r["reason"] = "solver resource limit: " + rl_errs[0]["msg"]
+        r["diagnostics"] = [rl_errs[0]["text"]]
+        return r
     # vacuity twins must fail
     vac_pass = [f["function"] for f in funcs if f["function"].split("::")[-1].startswith("vacuity__") and f["success"]]
     real_fail = [f["function"] for f in funcs if not f["function"].split("::")[-1].startswith(("vacuity__", "finding__")) and not f["success"]]
